@@ -21,7 +21,7 @@ RULE = ('random operation histories (constructors, setitem/del, row/slice/mask/i
         'distinct = distinct canonical hash of the whole history term')
 ASSUMPTIONS = ['column order is not compared (concat uses set order by design)',
                'a table without columns has no rows (library normalisation adopted by the model)',
-               'new column names never collide with existing ones; names data/columns/key are not used',
+               'new column names never collide with existing ones; names data/columns/key are not used', 'do() over several columns is sequential: a transform reading another column sees that column as already transformed (the library\'s documented behaviour)',
                'in-place mutation of a column list obtained from d[c] is not a table operation',
                'd+None / d+0 / single-table concat may return the operand itself (modelled as aliasing when observed)']
 
@@ -728,7 +728,7 @@ def gen_history(rng, nops):
                     op = {'op': 'relabel', 't': t, 'how': how, 'map': mapping, 'arg': arg, 'dst': dst}
         elif k == 'do' and m.cols:
             cs = gen.subset(rng, m.cols, 1, 3)
-            others = [c for c in m.cols if c not in cs]
+            others = [c for c in m.cols if c not in cs] if rng.random() < 0.5 else [c for c in m.cols]
             fn = rng.choice(['repr', 'ident', 'pair'] if others else ['repr', 'ident'])
             f = {'fn': fn}
             if fn == 'pair':
